@@ -283,6 +283,9 @@ def calculate_circle_center(vertices, method: str="dlite") -> Tuple:
         return center[0], center[1]
 
 def dlite_circle_method(xs, ys):
+    xs = np.asarray(xs, dtype=float)
+    ys = np.asarray(ys, dtype=float)
+
     def objective_f(c):
         """ 
         Distance between the vertices and the mean circle centered at c
@@ -290,7 +293,17 @@ def dlite_circle_method(xs, ys):
         distances = np.sqrt((xs - c[0]) ** 2 + (ys - c[1]) ** 2)
         return distances - distances.mean()
 
-    center, _ = sco.leastsq(objective_f, (np.mean(xs), np.mean(ys)))
+    def jacobian_f(c):
+        """
+        Exact derivatives of objective_f: the finite-difference step of leastsq
+        collapses when a centre coordinate passes near zero and the fit stalls
+        """
+        distances = np.sqrt((xs - c[0]) ** 2 + (ys - c[1]) ** 2)
+        distances[distances == 0] = 1.  # a vertex at the trial centre: the numerators vanish too
+        jacobian = np.array([(c[0] - xs) / distances, (c[1] - ys) / distances])
+        return jacobian - jacobian.mean(axis=1, keepdims=True)
+
+    center, _ = sco.leastsq(objective_f, (np.mean(xs), np.mean(ys)), Dfun=jacobian_f, col_deriv=True)
     return center
 
 
